@@ -1,7 +1,7 @@
 (* C11Check.v — judges observed per-call deliveries of the real writer::Normalize.
    The monitor `c11_ok` is written against the property text, independently of Model/Normalize.v. *)
 From CV Require Import Model.Base Model.Events Model.Contract Model.Normalize Proofs.NormalizeP2 Check.Verdict.
-From CV Require Proofs.ReviewP2.
+From CV Require Proofs.ReviewP2 Proofs.ReviewP4.
 
 Record ncase := mk_ncase {
   nc_events : list mev;
@@ -98,7 +98,10 @@ Definition c11_ok (es : list mev) (calls : list (list mev)) : bool :=
   && (negb (normalized_prefix (map snd es)) || list_eqb (list_eqb mev_eqb) calls (map (fun e => [e]) es))
   (* head-liveness in the observable form of Proofs/ReviewP2.v (module RA: the head feature / rule / attempt is computed
      from the input prefix and the output so far only), after every call *)
-  && forallb (fun n => ReviewP2.RA.head_ok (firstn n es) (concat (firstn n calls))) (seq 1 (length es)).
+  (* (`head_ok2` = `head_ok` plus the CLOSING brackets: a received Feature- / Rule- / run-Finished of the head whose
+     content is finished in the output is in the output — a writer that withholds a closing bracket keeps the head where
+     it is and would satisfy `head_ok` alone) *)
+  && forallb (fun n => ReviewP4.RA2.head_ok2 (firstn n es) (concat (firstn n calls))) (seq 1 (length es)).
 
 Definition verdict (id : N) (c : ncase) : list (list N) :=
   let m := nrun (nc_events c) in
